@@ -55,7 +55,7 @@ def ruleKey (objs : List Obj) (r : Rule) : String :=
   | none => "default-group"
   | some n =>
     match objs.find? (fun o => o.id == (Kind.certmap, n)) with
-    | some o => match (o.secs.headD { head := "" }).subs.find? (fun s => s.key.startsWith "subject-name attr") with
+    | some o => match (o.secs.headD { head := "" }).subs.find? (fun s => isPre "subject-name attr".toList s.key.toList) with
       | some s => s.key
       | none => ""
     | none => ""
